@@ -12,6 +12,7 @@ import (
 	"sort"
 	"strings"
 	"sync"
+	"sync/atomic"
 	"time"
 
 	"c4emc/explore"
@@ -69,7 +70,37 @@ type RunCtx struct {
 	Assume         []string
 	Notes          []string
 	MachineryError bool
+	// Deadline only stops further enumeration (the run then reports exhaustive:false); it never decides.
+	Deadline time.Time
+	capped   int32
+	// firstUnlisted: when the first violation that is not a listed known finding was recorded. A run
+	// that has already found one stops enumerating 45 s later (it will exit 1 anyway).
+	firstUnlisted time.Time
+	known         *KnownFile
 }
+
+// Active is the run context consulted by ParallelFor for the time budget.
+var Active *RunCtx
+
+func (rc *RunCtx) Expired() bool {
+	if rc == nil {
+		return false
+	}
+	rc.mu.Lock()
+	fu := rc.firstUnlisted
+	rc.mu.Unlock()
+	if !fu.IsZero() && time.Since(fu) > 45*time.Second {
+		atomic.StoreInt32(&rc.capped, 1)
+		return true
+	}
+	if rc.Deadline.IsZero() || time.Now().Before(rc.Deadline) {
+		return false
+	}
+	atomic.StoreInt32(&rc.capped, 1)
+	return true
+}
+
+func (rc *RunCtx) Capped() bool { return atomic.LoadInt32(&rc.capped) != 0 }
 
 func (rc *RunCtx) Thorough() bool { return rc.Tier == "thorough" }
 
@@ -83,6 +114,21 @@ func (rc *RunCtx) Violate(v *explore.Violation) {
 	defer rc.mu.Unlock()
 	if v.Property == "" {
 		v.Property = rc.ID
+	}
+	if rc.firstUnlisted.IsZero() {
+		if rc.known == nil {
+			k := LoadKnown()
+			rc.known = &k
+		}
+		listed := false
+		for _, k := range rc.known.Known {
+			if k.Property == v.Property && k.Signature == v.Sig {
+				listed = true
+			}
+		}
+		if !listed {
+			rc.firstUnlisted = time.Now()
+		}
 	}
 	for i, o := range rc.viols {
 		if o.Property == v.Property && o.Sig == v.Sig {
@@ -166,6 +212,10 @@ func (rc *RunCtx) Finish() int {
 		ev.Coverage = map[string]interface{}{}
 	}
 	ev.Coverage["known_findings_matched"] = len(rc.viols) - unlisted
+	if rc.Capped() {
+		ev.Coverage["exhaustive"] = false
+		ev.Coverage["capped_by_time_budget"] = true
+	}
 	if len(rc.Notes) > 0 {
 		ev.Coverage["notes"] = rc.Notes
 	}
@@ -219,6 +269,9 @@ func ParallelFor(workers, n int, f func(worker, i int)) {
 				mu.Unlock()
 				if i >= n {
 					return
+				}
+				if Active.Expired() {
+					continue // budget exhausted: remaining items are skipped and the run reports exhaustive:false
 				}
 				f(w, i)
 			}
